@@ -48,6 +48,10 @@ META = {
                   "phys dim": "2, one site-dependent case (2,3,2)", "boundaries": "open + periodic wherever the routine supports it",
                   "entries": "conj-pair complex symbols (LAPACK-free goals), real symbols (goals through the QR / SVD / eigh contracts)",
                   "layouts": "3 of 6 'lrp' orders, 3 'lrud' orders",
+                  "Hamiltonian builders": "SpinHam1D with 11 term-list families (0-3 one-site and 0-3 two-site default terms, the same operator twice, "
+                                          "site / bond specific lists by repeated += or assignment, -=, array operators) x (L=3 open, L=4 periodic), "
+                                          "S=1/2 (S=1 twice): build_mpo / build_sparse / build_local_ham; MPO_ham_ising / XY / heis / XXZ / "
+                                          "bilinear_biquadratic / mbl (dh_dim 1, 2, 3, 'xz', 'y', 'yz' x dh_dist s, g, qp x scalar / triple j, tuple dh)",
                   "compression": "direct, dm, zipup x both sweep directions; cutoff=0 with max_bond in {None, 1, 2}; inputs: MPS, sum (dm), "
                                  "two-layer MPO.MPS, MPO; truncation-error identity for L = 2, 3; compress(form) / left_compress / right_compress / "
                                  "compress_site / gate_with_mpo; options normalize, inplace, max_bond=2"},
@@ -70,7 +74,13 @@ META = {
                 "the sign of the normalisation factor of normalize=True (numeric cross-run)",
                 "transfer-matrix compression of long periodic expectation networks (expec_TN_1D(compress=True), n >= 100); equalize_norms",
                 "random generators (MPS_rand_state, MPO_rand, MPS_rand_computational_state); MPS_sampler only through its norm",
-                "Hamiltonian MPO builders (MPO_ham_*, SpinHam1D)", "jax / torch / block-sparse backends",
+                "Hamiltonian builders (SpinHam1D, MPO_ham_*) with symbolic coefficients: spin_ham_mpo_tensor allocates a complex table, so "
+                "spin_ham_builder / hamiltonian_generators compare numeric tables with dyadic coefficients by evaluation (fixed table + random "
+                "multiples of 1/16), S = 1/2 and 1, L = 3-5; MPO_ham_mbl's random fields are pinned by their support, bound and the dense "
+                "builder quimb.ham_mbl at the same seed, not by a distribution test; MPO_ham_bilinear_biquadratic only against the term list it "
+                "hands to SpinHam1D (its biquadratic term is (S(S+1))^2 * identity, not (S_i.S_j)^2 of the cited model: reported); "
+                "build_local_ham with plain ndarray two-site operators (rejected: TypeError); NNI / LocalHam1D evolution (C18)",
+                "jax / torch / block-sparse backends",
                 "L = 1 chains and periodic chains of length 2 (double bond)",
                 "tensor_network_align(A, B) of two operators with default ids is rejected by the library (ambiguous ids): explicit ind_ids are supplied"],
     "assumptions": ["LAPACK qr / svd / eigh return factors meeting their documented contracts (stubs); QR stub has positive diagonal",
@@ -1293,6 +1303,278 @@ def identity_on_site_subset(mk, Ltot, sites):
     F = attempt(mk, "fill_empty_sites('full') of the sub-identity", lambda: I.fill_empty_sites("full"))
     if F is not None:
         mk.same("filled identity covers the whole chain", tuple(F.gen_sites_present()), tuple(range(Ltot)))
+
+
+# ------------------------------------------------------------------------------------
+# 3b. Hamiltonian builders: SpinHam1D (build_mpo / build_sparse / build_local_ham) and MPO_ham_*
+# ------------------------------------------------------------------------------------
+# The MPO tensors are numeric tables (spin_ham_mpo_tensor allocates a complex array, symbolic
+# coefficients cannot enter): coefficients are distinct dyadic rationals (exactly representable,
+# every sum below is exact to rounding of a few additions) - a fixed table in the symbolic-mode
+# run, random multiples of 1/16 in the numeric cross-run; the comparison is by evaluation.
+
+_S2 = 2 ** 0.5
+_SPIN = {
+    2: {"X": np.array([[0, 0.5], [0.5, 0]], dtype=complex), "Y": np.array([[0, -0.5j], [0.5j, 0]]),
+        "Z": np.array([[0.5, 0], [0, -0.5]], dtype=complex), "+": np.array([[0, 1.0], [0, 0]], dtype=complex),
+        "-": np.array([[0, 0], [1.0, 0]], dtype=complex), "I": np.eye(2, dtype=complex)},
+    3: {"X": np.array([[0, 1, 0], [1, 0, 1], [0, 1, 0]], dtype=complex) / _S2,
+        "Y": np.array([[0, -1j, 0], [1j, 0, -1j], [0, 1j, 0]]) / _S2,
+        "Z": np.diag([1.0, 0.0, -1.0]).astype(complex),
+        "+": np.array([[0, 1, 0], [0, 0, 1], [0, 0, 0]], dtype=complex) * _S2,
+        "-": np.array([[0, 0, 0], [1, 0, 0], [0, 1, 0]], dtype=complex) * _S2, "I": np.eye(3, dtype=complex)},
+}
+
+
+def _sop(D, s):
+    return _SPIN[D][s] if isinstance(s, str) else np.asarray(s, dtype=complex)
+
+
+def _embed_sites(L, D, op, sites):
+    """op (acting on `sites`, in that order; any distinct sites) embedded in D^L: explicit index placement"""
+    k = len(sites)
+    opk = np.asarray(op, dtype=complex).reshape((D,) * (2 * k))
+    I = np.eye(D ** L, dtype=complex).reshape((D,) * L + (D ** L,))
+    out = np.tensordot(opk, I, axes=(list(range(k, 2 * k)), list(sites)))
+    out = np.moveaxis(out, list(range(k)), list(sites))
+    return out.reshape(D ** L, D ** L)
+
+
+def spin_ham_ref(L, D, cyclic, one, two, var_one=None, var_two=None):
+    """sum over sites of the one-site terms (site-specific list replaces the default list) and over bonds
+    (i, i+1) (+ the wrap bond if cyclic) of the two-site terms, every term embedded explicitly"""
+    var_one, var_two = var_one or {}, var_two or {}
+    H = np.zeros((D ** L, D ** L), dtype=complex)
+    for i in range(L):
+        for c, a in var_one.get(i, one):
+            H = H + c * _embed_sites(L, D, _sop(D, a), (i,))
+    for i in range(L if cyclic else L - 1):
+        j = (i + 1) % L
+        for c, a, b in var_two.get((i, j), two):
+            H = H + c * _embed_sites(L, D, np.kron(_sop(D, a), _sop(D, b)), (i, j))
+    return H
+
+
+def _einsum_dense_op(tn, L, up="k{}", low="b{}"):
+    """dense matrix of an operator chain by one numpy einsum over the tensors' own (data, inds)"""
+    labels, args = {}, []
+    for t in tn:
+        args += [np.asarray(t.data), [labels.setdefault(ix, len(labels)) for ix in t.inds]]
+    out = [labels[up.format(i)] for i in range(L)] + [labels[low.format(i)] for i in range(L)]
+    d = np.einsum(*args, out)
+    n = int(np.prod(d.shape[:L]))
+    return d.reshape(n, -1)
+
+
+class _Coefs:
+    """distinct non-zero dyadic coefficients: fixed table (symbolic-mode run) / random multiples of 1/16 (numeric run)"""
+
+    def __init__(self, mk):
+        self.mk, self.k = mk, 0
+
+    def __call__(self):
+        self.k += 1
+        if self.mk.sym:
+            return (-1) ** self.k * (2 * self.k + 1) / 16
+        return float(self.mk._draw(f"c{self.k}", "real"))
+
+
+# term-list families: (default one-site ops, default two-site ops, {site: one-site ops}, {bond: two-site ops})
+_RAISE = np.array([[0.0, 1.0], [0.0, 0.0]])
+_SPECS = {
+    "tilted": (["Z", "X"], [("X", "X"), ("Y", "Y"), ("Z", "Z")], {}, {}),
+    "xyz_field": (["X", "Y", "Z"], [("Z", "Z"), ("+", "-")], {}, {}),
+    "repeat_same_op": (["Z", "Z", "X"], [("X", "X")], {}, {}),
+    "fields_only": (["X", "Z"], [], {}, {}),
+    "one_field": (["Z"], [("X", "X"), ("Y", "Y")], {}, {}),
+    "site_override": (["Z"], [("X", "X"), ("Z", "Z")], {1: ["X", "Y", "Z"], 0: ["X", "X"]}, {}),
+    "site_override_last": (["Z", "X"], [("+", "-"), ("-", "+")], {-1: ["Y", "Z"]}, {}),
+    "bond_override": (["Z", "Y"], [("X", "X"), ("Y", "Y"), ("Z", "Z")], {}, {(1, 2): [("Z", "X")], (0, 1): [("X", "Z"), ("Y", "Y")]}),
+    "both_overrides": (["X"], [("Z", "Z")], {1: ["Z", "X", "Y"]}, {(0, 1): [("X", "X"), ("Y", "Z"), ("Z", "Y")]}),
+    "no_default_fields": ([], [("X", "X"), ("Z", "Z")], {0: ["Z", "X"], 2: ["Y", "Z", "X"]}, {}),
+    "array_ops": ([_RAISE, "Z"], [(_RAISE, _RAISE.T), ("Z", "Z")], {1: [_RAISE.T, _RAISE, "X"]}, {}),
+}
+
+
+def _spin_ham_params():
+    out = []
+    for spec in _SPECS:
+        for L, S, cyc in ((3, 1 / 2, False), (4, 1 / 2, True), (4, 1 / 2, False), (3, 1, False), (3, 1, True), (5, 1 / 2, False)):
+            if spec == "array_ops" and S != 1 / 2:
+                continue
+            quick = (L, S, cyc) in ((3, 1 / 2, False), (4, 1 / 2, True)) or (spec in ("tilted", "site_override") and (L, S, cyc) == (3, 1, False))
+            out.append({"spec": spec, "L": L, "S": S, "cyclic": cyc, "_tiers": _Q if quick else _T})
+    return out
+
+
+@obligation(PROP, params=_spin_ham_params())
+def spin_ham_builder(mk, spec, L, S, cyclic):
+    """SpinHam1D: any list of one-site terms (several on the same site, the same operator twice) and two-site terms,
+    site- and bond-specific lists entered by repeated `b[i] += ...` / `b[i, j] += ...` or by assignment, `+=` / `-=`,
+    string and array operators, open and periodic: build_mpo (dense value, bond dimension), build_sparse and
+    build_local_ham all equal the explicit sum of embedded terms"""
+    mk.encodes(tb.SpinHam1D.build_mpo, tb.SpinHam1D.build_sparse, tb.SpinHam1D.build_local_ham, tb.spin_ham_mpo_tensor,
+               tb.SpinHam1D.add_term, tb.SpinHam1D.__setitem__, tb.SpinHam1D.__getitem__)
+    D = int(2 * S + 1)
+    coef = _Coefs(mk)
+    ones, twos, vones, vtwos = _SPECS[spec]
+    one = [(coef(), a) for a in ones]
+    two = [(coef(), a, b) for a, b in twos]
+    var_one = {i % L: [(coef(), a) for a in ops] for i, ops in vones.items()}
+    var_two = {bond: [(coef(), a, b) for a, b in ops] for bond, ops in vtwos.items()}
+    want = spin_ham_ref(L, D, cyclic, one, two, var_one, var_two)
+
+    def build(style):
+        b = qtn.SpinHam1D(S=S, cyclic=cyclic)
+        terms = [t for pair in itertools.zip_longest(two, one) for t in pair if t is not None] if style == "interleaved" else two + one
+        for k, t in enumerate(terms):
+            if style != "add" and k % 2:
+                b -= (-t[0],) + tuple(t[1:])
+            else:
+                b += t
+        for i, ts in var_one.items():
+            if style == "assign":
+                b[i] = list(ts)
+            else:
+                for t in ts:
+                    b[i] += t
+        for bond, ts in var_two.items():
+            if style == "assign":
+                b[bond] = list(ts)
+            else:
+                for t in ts:
+                    b[bond] += t
+        return b
+
+    for style in ("add", "interleaved", "assign"):
+        b = build(style)
+        tag = f"SpinHam1D[{spec}, {style}] L={L} S={S} cyclic={cyclic}"
+        if True:
+            A = b.build_mpo(L)
+            mk.same(f"{tag}: build_mpo gives an MPO of length L", (type(A) is qtn.MatrixProductOperator, A.L), (True, L))
+            num_eq(mk, f"{tag}: build_mpo(L) dense value (explicit einsum over the site tensors) == sum of embedded terms",
+                   _einsum_dense_op(A, L), want, tol=1e-11)
+            num_eq(mk, f"{tag}: build_mpo(L).to_dense() == sum of embedded terms", A.to_dense(), want, tol=1e-11)
+            if not var_two:
+                mk.same(f"{tag}: MPO bond dimension == number of two-site terms + 2", set(A.bond_sizes()), {len(two) + 2})
+            A2 = b.build_mpo(L, upper_ind_id="u{}", lower_ind_id="l{}", site_tag_id="S{}")
+            num_eq(mk, f"{tag}: build_mpo with custom ids", _einsum_dense_op(A2, L, "u{}", "l{}"), want, tol=1e-11)
+        Hs = b.build_sparse(L)
+        num_eq(mk, f"{tag}: build_sparse(L) == sum of embedded terms", np.asarray(Hs.todense()), want, tol=1e-11)
+        if two and spec != "array_ops":
+            # (plain ndarray two-site operators are rejected by build_local_ham: `s1 & s2` needs a quimb qarray -> TypeError)
+            lh = b.build_local_ham(L)
+            tot = np.zeros_like(want)
+            for sites, h in lh.terms.items():
+                tot = tot + _embed_sites(L, D, np.asarray(h), tuple(sites))
+            num_eq(mk, f"{tag}: build_local_ham(L): sum of its embedded local terms == sum of embedded terms", tot, want, tol=1e-11)
+            mk.same(f"{tag}: build_local_ham(L): terms live on nearest-neighbour bonds",
+                    all(len(s) == 2 and (abs(s[0] - s[1]) == 1 or (cyclic and set(s) == {0, L - 1})) for s in lh.terms), True)
+
+
+def _field_components(Hd, L, D):
+    """coefficients h[d][i] of S^d_i (d = x, y, z) in a dense operator and the remainder after removing them
+    (S^x, S^y, S^z on different sites / directions are trace-orthogonal)"""
+    h = {}
+    rest = np.array(Hd, dtype=complex)
+    for d in "XYZ":
+        for i in range(L):
+            E = _embed_sites(L, D, _SPIN[D][d], (i,))
+            c = np.trace(E.conj().T @ Hd) / np.trace(E.conj().T @ E)
+            h[d, i] = c
+            rest = rest - c * E
+    return h, rest
+
+
+_NAMED_HAMS = ("ising", "XY", "heis", "XXZ", "bilinear_biquadratic", "mbl")
+
+
+@obligation(PROP, params=[{"name": n, "L": L, "cyclic": cyc, "_tiers": _Q if (L == 3 and not cyc) or (n == "mbl" and L == 4) else _T}
+                          for n in _NAMED_HAMS for L, cyc in ((3, False), (4, True), (4, False), (3, True))])
+def hamiltonian_generators(mk, name, L, cyclic):
+    """named Hamiltonian MPO generators with every documented form of their arguments (scalar / per-direction
+    couplings, field, spin S, MPO_ham_mbl's dh_dim / dh_dist / tuple dh) against the explicit sum of embedded
+    spin-operator terms written from the documented formula"""
+    mk.encodes(tb.MPO_ham_ising, tb.MPO_ham_XY, tb.MPO_ham_heis, tb.MPO_ham_XXZ, tb.MPO_ham_bilinear_biquadratic, tb.MPO_ham_mbl,
+               tb.spin_ham_mpo_tensor, tb.SpinHam1D.build_mpo)
+    coef = _Coefs(mk)
+
+    def chk(label, A, want, Lx=L):
+        mk.same(f"{label}: MPO of length L, cyclic flag", (type(A) is qtn.MatrixProductOperator, A.L, bool(A.cyclic)), (True, Lx, cyclic))
+        num_eq(mk, f"{label}: dense value == documented sum of terms", _einsum_dense_op(A, Lx), want, tol=1e-11)
+        num_eq(mk, f"{label}: to_dense()", A.to_dense(), want, tol=1e-11)
+
+    for S in (1 / 2, 1):
+        D = int(2 * S + 1)
+        hr = lambda one, two: spin_ham_ref(L, D, cyclic, one, two)
+        if name == "ising":
+            j, bx = coef(), coef()
+            chk(f"MPO_ham_ising(j, bx, S={S})", tb.MPO_ham_ising(L, j, bx, S=S, cyclic=cyclic), hr([(-bx, "X")], [(j, "Z", "Z")]))
+            chk(f"MPO_ham_ising(j, S={S}) (no field)", tb.MPO_ham_ising(L, j, S=S, cyclic=cyclic), hr([], [(j, "Z", "Z")]))
+        elif name == "XY":
+            j, jx, jy, bz = coef(), coef(), coef(), coef()
+            chk(f"MPO_ham_XY(j, bz, S={S})", tb.MPO_ham_XY(L, j, bz, S=S, cyclic=cyclic), hr([(-bz, "Z")], [(j, "X", "X"), (j, "Y", "Y")]))
+            chk(f"MPO_ham_XY((jx, jy), bz, S={S})", tb.MPO_ham_XY(L, (jx, jy), bz, S=S, cyclic=cyclic),
+                hr([(-bz, "Z")], [(jx, "X", "X"), (jy, "Y", "Y")]))
+            chk(f"MPO_ham_XY((jx, jx), S={S})", tb.MPO_ham_XY(L, (jx, jx), S=S, cyclic=cyclic), hr([], [(jx, "X", "X"), (jx, "Y", "Y")]))
+        elif name == "heis":
+            j, jx, jy, jz, bz = coef(), coef(), coef(), coef(), coef()
+            chk(f"MPO_ham_heis(j, bz, S={S})", tb.MPO_ham_heis(L, j, bz, S=S, cyclic=cyclic),
+                hr([(-bz, "Z")], [(j, "X", "X"), (j, "Y", "Y"), (j, "Z", "Z")]))
+            chk(f"MPO_ham_heis((jx, jy, jz), bz, S={S})", tb.MPO_ham_heis(L, (jx, jy, jz), bz, S=S, cyclic=cyclic),
+                hr([(-bz, "Z")], [(jx, "X", "X"), (jy, "Y", "Y"), (jz, "Z", "Z")]))
+            chk(f"MPO_ham_heis((jx, jx, jz), S={S})", tb.MPO_ham_heis(L, (jx, jx, jz), S=S, cyclic=cyclic),
+                hr([], [(jx, "X", "X"), (jx, "Y", "Y"), (jz, "Z", "Z")]))
+        elif name == "XXZ":
+            delta, jxy = coef(), coef()
+            chk(f"MPO_ham_XXZ(delta, jxy, S={S})", tb.MPO_ham_XXZ(L, delta, jxy, S=S, cyclic=cyclic),
+                hr([], [(jxy, "X", "X"), (jxy, "Y", "Y"), (delta, "Z", "Z")]))
+            chk(f"MPO_ham_XXZ(delta, S={S})", tb.MPO_ham_XXZ(L, delta, S=S, cyclic=cyclic),
+                hr([], [(1.0, "X", "X"), (1.0, "Y", "Y"), (delta, "Z", "Z")]))
+        elif name == "bilinear_biquadratic":
+            theta = coef()
+            # the generator's term list: cos(theta) S_i.S_{i+1} + sin(theta) sum_{a,b} (S^a S^a)_i (S^b S^b)_{i+1}.
+            # NOTE (reported, not part of the claim): the chain of the cited paper has sin(theta) (S_i.S_{i+1})^2 =
+            # sum_{a,b} (S^a S^b)_i (S^a S^b)_{i+1}; what is built is sin(theta) (S(S+1))^2 * identity per bond.  The docstring
+            # states no formula, so only "the MPO equals the sum of the terms handed to SpinHam1D" is checked here.
+            sq = {a: _SPIN[D][a] @ _SPIN[D][a] for a in "XYZ"}
+            two = [(np.cos(theta), a, a) for a in "XYZ"] + [(np.sin(theta), sq[a], sq[b]) for a in "XYZ" for b in "XYZ"]
+            for comp in (True, False):
+                A = tb.MPO_ham_bilinear_biquadratic(L, theta, S=S, cyclic=cyclic, compress=comp)
+                mk.same(f"MPO_ham_bilinear_biquadratic(theta, S={S}, compress={comp}): MPO of length L", (type(A) is qtn.MatrixProductOperator, A.L), (True, L))
+                num_eq(mk, f"MPO_ham_bilinear_biquadratic(theta, S={S}, compress={comp}): dense value == sum of its terms",
+                       _einsum_dense_op(A, L), hr([], two), tol=1e-9)
+        elif name == "mbl":
+            dh, j, jz = abs(coef()) + 0.5, coef(), coef()
+            for dh_dim, dirs in ((1, "Z"), (2, "XY"), (3, "XYZ"), ("xz", "XZ"), ("y", "Y"), ("yz", "YZ")):
+                for dist in ("s", "g") + (("qp",) if dh_dim == 1 else ()):
+                    for jj in (j, (j, j, jz)):
+                        seed = 7 + len(dirs)
+                        lab = f"MPO_ham_mbl(dh, j={'scalar' if jj is j else 'triple'}, seed, S={S}, dh_dist={dist!r}, dh_dim={dh_dim!r})"
+                        A = tb.MPO_ham_mbl(L, dh, jj, seed=seed, S=S, cyclic=cyclic, dh_dist=dist, dh_dim=dh_dim)
+                        Hd = _einsum_dense_op(A, L)
+                        jt = (jj, jj, jj) if jj is j else jj
+                        H0 = hr([], [(jt[0], "X", "X"), (jt[1], "Y", "Y"), (jt[2], "Z", "Z")])
+                        h, rest = _field_components(Hd - H0, L, D)
+                        num_eq(mk, f"{lab}: H - H_heis(j) is a sum of one-site fields", rest, np.zeros_like(rest), tol=1e-10)
+                        num_eq(mk, f"{lab}: to_dense()", A.to_dense(), Hd, tol=1e-11)
+                        active = {d: [abs(h[d, i]) for i in range(L)] for d in "XYZ"}
+                        mk.same(f"{lab}: a random field on every site in exactly the directions of dh_dim",
+                                {d: all(x > 1e-9 for x in active[d]) if d in dirs else all(x < 1e-10 for x in active[d]) for d in "XYZ"},
+                                {d: True for d in "XYZ"})
+                        if dist in ("s", "qp"):
+                            mk.same(f"{lab}: |field| <= dh", all(x <= dh + 1e-12 for d in dirs for x in active[d]), True)
+                        if S == 1 / 2:
+                            Hq = qu.ham_mbl(L, dh, jj, seed=seed, cyclic=cyclic, dh_dist=dist, dh_dim=dh_dim, sparse=False)
+                            num_eq(mk, f"{lab}: == quimb.ham_mbl with the same seed (dense builder)", Hd, np.asarray(Hq), tol=1e-10)
+            # per-direction noise strengths given as a tuple
+            dhs = (abs(coef()) + 0.25, 0.0, abs(coef()) + 0.25)
+            A = tb.MPO_ham_mbl(L, dhs, j, seed=3, S=S, cyclic=cyclic)
+            h, rest = _field_components(_einsum_dense_op(A, L) - hr([], [(j, a, a) for a in "XYZ"]), L, D)
+            num_eq(mk, f"MPO_ham_mbl(dh=(hx, 0, hz), S={S}): H - H_heis is a sum of one-site fields", rest, np.zeros_like(rest), tol=1e-10)
+            mk.same(f"MPO_ham_mbl(dh=(hx, 0, hz), S={S}): fields in x and z only, bounded by their strengths",
+                    [all(1e-9 < abs(h["X", i]) <= dhs[0] for i in range(L)), all(abs(h["Y", i]) < 1e-10 for i in range(L)),
+                     all(1e-9 < abs(h["Z", i]) <= dhs[2] for i in range(L))], [True, True, True])
 
 
 # ====================================================================================
